@@ -68,7 +68,13 @@ RULE = ("Documents are rendered from abstract trees; the oracle is the tree that
         "table open at the end, a '# language: de' text) or complete; the last call is a well-formed rendered text "
         "(table of the same width, another width, none, doc-string, both, tags, outline, rule, de header). Every call "
         "must give the model (canonical form incl. lines) or the exception class + line that a FRESH Parser carrying "
-        "the same language gives (for a whole feature text also: a fresh Parser without language). A document is "
+        "the same language gives (for a whole feature text also: a fresh Parser without language). "
+        "(9) Language-sequence histories (module / class level memos show only across documents): for EVERY ordered "
+        "pair of languages that share a step keyword string (derived from the keyword table; thorough: also '* ', i.e. "
+        "nearly all pairs), in one fresh process-state (a private, freshly executed copy of behave/parser.py, not in "
+        "sys.modules) an L1 document that uses the shared keyword, then L2 documents with every step alias of L2; "
+        "and the whole languages x aliases sweep in 4 language orders, one process-state each; every document must "
+        "give exactly what it gives when it is the first text parsed in a fresh process-state. A document is "
         "non-trivial (counted distinct by its text) when it has at least one step or table; "
         "an alias case is distinct by (language, keyword, alias); a history by (abstract state, line kind).")
 ASSUMPTIONS = [
@@ -1275,6 +1281,154 @@ def reuse_cases(thorough):
                 yield (a, b, c)
 
 
+# ================================================================ (9) language-sequence histories
+# Anything the parser memoises at module or class level (keyword lookups ...) shows only ACROSS documents: a document
+# of language L2 must give the same model whether it is the first text the process parses or comes after documents
+# of another language L1.  "Fresh process-state" = a private, freshly executed copy of behave/parser.py that is not
+# registered in sys.modules (compiled once per worker), so that the result never depends on what the worker did before.
+_PM_CODE = {}
+
+
+def fresh_parser_module():
+    import types
+    import behave.parser as real
+    path = real.__file__
+    if path.endswith(("c", "o")):
+        path = path[:-1]
+    if path not in _PM_CODE:
+        with open(path, "rb") as f:
+            _PM_CODE[path] = compile(f.read(), path, "exec")
+    mod = types.ModuleType("behave.parser")
+    mod.__package__ = "behave"
+    mod.__file__ = path
+    exec(_PM_CODE[path], mod.__dict__)
+    return mod
+
+
+def _pm_parse(mod, text):
+    try:
+        res = mod.parse_feature(text)
+    except mod.ParserError as e:
+        return ("PE", e.line, ps.exc_site(e))
+    except Exception as e:
+        return ("EXC", type(e).__name__, ps.exc_site(e))
+    return ("ok", None if res is None else gr.x_feature(res))
+
+
+def _step_rivals(lang, kw):
+    """aliases of the language that extend kw (or differ from it in case only)"""
+    tab = gr.languages()[lang]
+    return sorted(set(a for k in gr.STEP_KINDS for a in tab[k]
+                      if a != kw and len(a) >= len(kw) and a.lower().startswith(kw.lower())))
+
+
+def language_pairs(include_star):
+    """ordered (L1, L2, K, extends): L1 and L2 share the step keyword string K; extends = one of them has an alias
+    that extends K which the other has not (derived from the keyword table, nothing hard-coded)"""
+    tab = gr.languages()
+    users = {}
+    for lang in sorted(tab):
+        for k in gr.STEP_KINDS:
+            for a in tab[lang][k]:
+                users.setdefault(a, set()).add(lang)
+    out = []
+    for kw in sorted(users):
+        if kw == u"* " and not include_star:
+            continue
+        langs = sorted(users[kw])
+        for a in langs:
+            for b in langs:
+                if a != b:
+                    out.append((a, b, kw, _step_rivals(a, kw) != _step_rivals(b, kw)))
+    return out
+
+
+def _kinds_of(lang, kw):
+    return [k for k in gr.STEP_KINDS if kw in gr.languages()[lang][k]]
+
+
+def _seq_violation(clause, extra, want, got, what, texts):
+    d = {"subcheck": "language-sequence", "clause": clause}
+    if want[0] == "ok" and got[0] == "ok" and isinstance(want[1], dict) and isinstance(got[1], dict):
+        path, a, b = (gr.diff(want[1], got[1]) or [((), "?", "?")])[0]
+        d["field"] = gr.path_class(path, want[1])
+        detail = "%s: parsed first %r, parsed in the history %r" % (".".join(map(str, path)), a, b)
+    else:
+        d["field"] = "outcome"
+        detail = "parsed first %r, parsed in the history %r" % (want if want[0] != "ok" else "ok", got if got[0] != "ok" else "ok")
+    d.update(extra)
+    return (d, "%s: %s\n%s" % (what, detail, texts))
+
+
+def check_langseq(case):
+    """(L1, L2, K): one process-state parses an L1 document that uses the shared step keyword K, then L2 documents
+    with every step alias of L2; each must equal what the same text gives when parsed first in a fresh state"""
+    l1, l2, kw = case
+    kind1 = _kinds_of(l1, kw)[0]
+    first = gr.render(lang_doc(l1, {kind1: kw} if kw != u"* " else {}, 1 if kw == u"* " else 0))
+    mod = fresh_parser_module()
+    _pm_parse(mod, first["text"])
+    v = []
+    obs = []
+    n = 1
+    tab = gr.languages()[l2]
+    docs = [(None, None, 1)]
+    for kind in gr.STEP_KINDS:
+        for alias in tab[kind]:
+            if alias != u"* ":
+                docs.append((kind, alias, 0))
+    for kind, alias, variant in docs:
+        r = gr.render(lang_doc(l2, {kind: alias} if kind else {}, variant))
+        got = _pm_parse(mod, r["text"])
+        n += 1
+        obs.append(digest(got))
+        if got[0] == "ok" and got[1] is not None and not gr.diff(r["expected"], got[1]):
+            continue        # equals the model that was rendered: nothing a fresh state could do better
+        want = _pm_parse(fresh_parser_module(), r["text"])
+        n += 1
+        if got != want and not v:
+            v.append(_seq_violation("differs-from-fresh-process-state", {}, want, got,
+                                    "language %s (alias %r of %s) after a %s document that used %r" % (l2, alias, kind, l1, kw),
+                                    "--- parsed before (%s):\n%s--- this document (%s):\n%s" % (l1, first["text"], l2, r["text"])))
+    return {"v": v, "nt": case, "out": ("langseq", kw, bool(v)), "dg": obs, "n": n,
+            "st": {"transitions": len(docs) + 1, "traces": 1}}
+
+
+def check_langorder(case):
+    """(order, rotate): the whole languages x aliases sweep in ONE process-state, languages in the given order;
+    every document must equal what it gives when parsed first in a fresh state"""
+    order, rotate = case
+    langs = sorted(gr.languages())
+    langs = langs[rotate:] + langs[:rotate]
+    if order == "reverse":
+        langs.reverse()
+    mod = fresh_parser_module()
+    v = []
+    obs = []
+    n = 0
+    prev = None
+    for lang in langs:
+        tab = gr.languages()[lang]
+        for kind in gr.BLOCK_KINDS + gr.STEP_KINDS:
+            for alias in tab[kind]:
+                if alias == u"* " or (kind in gr.BLOCK_KINDS and _ambiguous_block_alias(lang, kind, alias)):
+                    continue
+                r = gr.render(lang_doc(lang, {kind: alias}, 0))
+                got = _pm_parse(mod, r["text"])
+                n += 1
+                obs.append(digest(got))
+                if got[0] == "ok" and got[1] is not None and not gr.diff(r["expected"], got[1]):
+                    continue
+                want = _pm_parse(fresh_parser_module(), r["text"])
+                n += 1
+                if got != want and len(v) < 3:
+                    v.append(_seq_violation("order-dependent", {}, want, got,
+                                            "language %s (alias %r of %s) in the sweep order %s/%d (language before: %s)"
+                                            % (lang, alias, kind, order, rotate, prev), r["text"]))
+        prev = lang
+    return {"v": v, "nt": ("langorder",) + tuple(case), "out": ("langorder", order, bool(v)), "dg": digest(obs), "n": n}
+
+
 # ================================================================ driver
 RICH = (True, ("S", "O2"), ((True, ("S", "O1")), (False, ("O1",))))
 
@@ -1334,5 +1488,20 @@ def run(ctx):
                                   "histories of <= 2 calls, all (x ; y ; well-formed) of 3 calls%s, on one Parser object"
                                   % (len(ops), len(_AB), len(ops) - len(_AB), "" if thorough else " (x: all aborting + every 3rd well-formed)"))
     ctx.sweep(check_reuse, reuse_cases(thorough), chunk=64, name="parser-reuse histories")
+    # (9)
+    pairs = language_pairs(include_star=thorough)
+    found = set((a, b, k) for a, b, k, ext in pairs if ext)
+    must = {("cs", "sk", u"A "), ("bs", "sk", u"A "), ("bs", "cs", u"A "), ("cy-GB", "cs", u"A "), ("gl", "fr", u"Mais "),
+            ("sk", "cs", u"A "), ("fr", "gl", u"Mais ")}
+    ctx.guard(found >= must, "language pairs that share a step keyword which only one of them extends are derived from "
+              "the keyword table (found %d; missing %s)" % (len(found), sorted(must - found)))
+    ctx.note("language_sequence_pairs", {"sharing_a_step_keyword": len(pairs), "one_extends_it": sorted(found)})
+    ctx.bounds["language_sequences"] = ("all %d ordered language pairs sharing a step keyword string%s; whole alias sweep in "
+                                        "4 language orders" % (len(pairs), "" if thorough else " other than '* '"))
+    ctx.sweep(check_langseq, sorted(set((a, b, k) for a, b, k, ext in pairs), key=lambda c: (c[2] == u"* ", c)), chunk=8,
+              name="language-sequence histories")
+    nl = len(gr.languages())
+    ctx.sweep(check_langorder, [("forward", 0), ("reverse", 0), ("forward", nl // 2), ("reverse", nl // 3)], chunk=1,
+              name="alias sweep in 4 language orders, one process-state each")
     ctx.guard(len(ctx.nt) > 3000, "at least 3000 distinct non-trivial documents/aliases/histories")
     ctx.guard(len(ctx.outcomes) > 40, "at least 40 distinct outcome classes")
